@@ -60,8 +60,14 @@ pub fn ints() -> Vec<Value> {
         dmax + 1,
         (1i128 << 63) - 1,
         1i128 << 63,
+        (1i128 << 64) - 1,
         1i128 << 64,
         (1i128 << 64) + 1,
+        // floor(sqrt(2^127)) and its successor: the largest operands whose square still fits / no longer fits
+        13_043_817_825_332_782_212,
+        13_043_817_825_332_782_213,
+        -13_043_817_825_332_782_213,
+        (1i128 << 32) - 1,
         (1i128 << 96) - 1,
         1i128 << 96,
         m - 1,
